@@ -90,6 +90,9 @@ func mint(c *Ctx, r recipe) minted {
 	e, _ := crypto.GetEtype(r.et)
 	sk := make([]byte, e.GetKeyByteSize())
 	c.R.Read(sk)
+	if forcedSession != nil {
+		sk = forcedSession
+	}
 	session := types.EncryptionKey{KeyType: r.et, KeyValue: sk}
 	etp := messages.EncTicketPart{
 		Flags:     asn1.BitString{Bytes: r.flags, BitLength: len(r.flags) * 8},
